@@ -56,7 +56,6 @@ Qed.
 
 Section WithNH.
 Variable NH : bytes -> list entry -> bytes.
-Hypothesis NH_truthy : forall d es, NH d es <> [].
 Notation Inv0 := (Inv0 NH).
 Notation Inv := (Inv NH).
 Notation Fresh := (Fresh NH).
@@ -98,7 +97,7 @@ Qed.
 
 Definition InvA (s : heap) : Prop := Inv s /\ acyclic s.
 
-Lemma update_hash_lt : forall f force n s r, update_hash NH (S f) force n s = Ok r -> n < length s.
+Lemma update_hash_lt : forall f force n s r, update_hash NH false (S f) force n s = Ok r -> n < length s.
 Proof.
   intros f force n s r H. simpl in H. unfold get in H. destruct (nth_error s n) eqn:E; [|discriminate].
   eapply nth_lt; eauto.
@@ -106,13 +105,13 @@ Qed.
 
 (* hash reads: success, freshness, and what they preserve *)
 Lemma hash_op_ok : forall force n s, InvA s -> n < length s ->
-  exists s' h, update_hash NH (S (length s)) force n s = Ok (s', h) /\ Inv s' /\ shape s s' /\ keepc s s' /\
+  exists s' h, update_hash NH false (S (length s)) force n s = Ok (s', h) /\ Inv s' /\ shape s s' /\ keepc s s' /\
     (force = false -> grows s s') /\ Fresh s' n h /\ Fresh s n h.
 Proof.
   intros force n s [[I I4] [rank Rk]] L.
-  assert (G : exists s' h, update_hash NH (S (length s)) force n s = Ok (s', h) /\ Inv0 s' /\ shape s s' /\
+  assert (G : exists s' h, update_hash NH false (S (length s)) force n s = Ok (s', h) /\ Inv0 s' /\ shape s s' /\
               (force = false -> grows s s') /\ hashed_val s' n h /\ (I4s s -> I4s s' /\ keepc s s')).
-  { apply (update_hash_ok NH NH_truthy rank (S (length s)) force n s I Rk L).
+  { apply (update_hash_ok NH rank (S (length s)) force n s I Rk L).
     destruct Rk as [_ B]. specialize (B n). lia. }
   destruct G as (s' & h & E & I' & Sh & G & HV & K). destruct (K I4) as [I4' Kp].
   exists s', h. split; auto. split; [split; auto|]. split; auto. split; auto. split; auto.
@@ -120,9 +119,9 @@ Proof.
   split; auto. apply (proj1 (Fresh_shape NH _ _ (shape_sym _ _ Sh))). exact F'.
 Qed.
 
-Lemma step_ok : forall s o, InvA s -> guard NH true s o ->
-  Inv (fst (step NH true s o)) /\
-  match o with OCollect _ => True | _ => K0 s (fst (step NH true s o)) end.
+Lemma step_ok : forall s o, InvA s -> guard NH true false s o ->
+  Inv (fst (step NH true false s o)) /\
+  match o with OCollect _ => True | _ => K0 s (fst (step NH true false s o)) end.
 Proof.
   intros s o IA [_ G]. pose proof IA as [I [rank Rk]].
   assert (TRIV : Inv s /\ K0 s s) by (split; [auto | apply K0_refl]).
@@ -139,26 +138,26 @@ Proof.
     destruct e; simpl; (split; [auto | apply K0_stepm; auto]).
   - destruct (getitem_ s p key); simpl; auto.
   - destruct (contains_ s p key); simpl; auto.
-  - unfold read_hash. destruct (update_hash NH (S (length s)) false n s) as [[s' h]|e] eqn:E; simpl; auto.
+  - unfold read_hash. destruct (update_hash NH false (S (length s)) false n s) as [[s' h]|e] eqn:E; simpl; auto.
     pose proof (update_hash_lt _ _ _ _ _ E) as L.
     destruct (hash_op_ok false n s IA L) as (s2 & h2 & E2 & I2 & _ & K2 & _). rewrite E in E2. inversion E2; subst.
     split; auto. apply K0_keepc; auto.
-  - unfold force_hash. destruct (update_hash NH (S (length s)) true n s) as [[s' h]|e] eqn:E; simpl; auto.
+  - unfold force_hash. destruct (update_hash NH false (S (length s)) true n s) as [[s' h]|e] eqn:E; simpl; auto.
     pose proof (update_hash_lt _ _ _ _ _ E) as L.
     destruct (hash_op_ok true n s IA L) as (s2 & h2 & E2 & I2 & _ & K2 & _). rewrite E in E2. inversion E2; subst.
     split; auto. apply K0_keepc; auto.
   - destruct (lt_dec n (length s)) as [L|L].
-    + destruct (entries_ok NH NH_truthy rank n s (proj1 I) Rk L) as [(e & E & _)|(s' & es & x & E & I' & G' & _)];
+    + destruct (entries_ok NH rank n s (proj1 I) Rk L) as [(e & E & _)|(s' & es & x & E & I' & G' & _)];
         rewrite E; simpl; auto.
       destruct (grows_keep _ _ (proj2 I) G') as [I4' Kp]. split; [split; auto | apply K0_keepc; auto].
     + unfold entries, get. destruct (nth_error s n) eqn:E; [exfalso; apply L; eapply nth_lt; eauto|]. simpl. auto.
   - destruct (lt_dec n (length s)) as [L|L].
-    + destruct (to_model_ok NH NH_truthy rank n s (proj1 I) Rk L) as [(e & E & _)|(s' & es & x & E & I' & G' & _)];
+    + destruct (to_model_ok NH rank n s (proj1 I) Rk L) as [(e & E & _)|(s' & es & x & E & I' & G' & _)];
         rewrite E; simpl; auto.
       destruct (grows_keep _ _ (proj2 I) G') as [I4' Kp]. split; [split; auto | apply K0_keepc; auto].
     + unfold to_model, get. destruct (nth_error s n) eqn:E; [exfalso; apply L; eapply nth_lt; eauto|]. simpl. auto.
   - split; auto. destruct (lt_dec n (length s)) as [L|L].
-    + destruct (collect_ok NH NH_truthy rank (S (length s)) n s I Rk L) as (s' & Lc & E & I' & _).
+    + destruct (collect_ok NH rank (S (length s)) n s I Rk L) as (s' & Lc & E & I' & _).
       { destruct Rk as [_ B]. specialize (B n). lia. }
       rewrite E. simpl. auto.
     + simpl. unfold get. destruct (nth_error s n) eqn:E; [exfalso; apply L; eapply nth_lt; eauto|]. simpl. auto.
@@ -170,7 +169,7 @@ Proof.
     + simpl. unfold get. destruct (nth_error s n) eqn:E; [exfalso; apply L; eapply nth_lt; eauto|]. simpl. auto.
 Qed.
 
-Lemma step_inv : forall s o, InvA s -> guard NH true s o -> InvA (fst (step NH true s o)).
+Lemma step_inv : forall s o, InvA s -> guard NH true false s o -> InvA (fst (step NH true false s o)).
 Proof.
   intros s o IA G. split; [apply (step_ok s o IA G) | apply G].
 Qed.
@@ -182,30 +181,30 @@ Proof.
   - intro. simpl. lia.
 Qed.
 
-Lemma final_app : forall s h o, final NH true s (h ++ [o]) = fst (step NH true (final NH true s h) o).
+Lemma final_app : forall s h o, final NH true false s (h ++ [o]) = fst (step NH true false (final NH true false s h) o).
 Proof.
   intros s h. revert s. unfold final. induction h as [|a h IH]; intros s o; simpl.
-  - destruct (step NH true s o). reflexivity.
-  - destruct (step NH true s a) as [s1 x] eqn:E. specialize (IH s1 o).
-    destruct (run NH true s1 (h ++ [o])). destruct (run NH true s1 h). simpl in *. exact IH.
+  - destruct (step NH true false s o). reflexivity.
+  - destruct (step NH true false s a) as [s1 x] eqn:E. specialize (IH s1 o).
+    destruct (run NH true false s1 (h ++ [o])). destruct (run NH true false s1 h). simpl in *. exact IH.
 Qed.
 
-Lemma reachable_inv : forall h s, InvA s -> guarded NH true s h -> InvA (final NH true s h).
+Lemma reachable_inv : forall h s, InvA s -> guarded NH true false s h -> InvA (final NH true false s h).
 Proof.
   induction h as [|o h IH]; intros s IA G; unfold final; simpl.
   - exact IA.
   - simpl in G. destruct G as [G1 G2]. pose proof (step_inv s o IA G1) as IA1.
-    remember (step NH true s o) as r eqn:E. destruct r as [s1 x]. simpl in IA1, G2.
-    specialize (IH s1 IA1 G2). unfold final in IH. destruct (run NH true s1 h). exact IH.
+    remember (step NH true false s o) as r eqn:E. destruct r as [s1 x]. simpl in IA1, G2.
+    specialize (IH s1 IA1 G2). unfold final in IH. destruct (run NH true false s1 h). exact IH.
 Qed.
 
 (* ---- C10: no stale value *)
-Lemma no_stale : forall h o, guarded NH true [] h -> guard NH true (final NH true [] h) o ->
-  let s := final NH true [] h in
-  let s' := fst (step NH true s o) in
+Lemma no_stale : forall h o, guarded NH true false [] h -> guard NH true false (final NH true false [] h) o ->
+  let s := final NH true false [] h in
+  let s' := fst (step NH true false s o) in
   (forall n, n < length s -> o = OHash n \/ o = OForce n ->
-     exists hv, snd (step NH true s o) = OutHash hv /\ Fresh s' n hv /\ Fresh s n hv) /\
-  (forall n es, o = OEntries n \/ o = OToModel n -> snd (step NH true s o) = OutEntries es ->
+     exists hv, snd (step NH true false s o) = OutHash hv /\ Fresh s' n hv /\ Fresh s n hv) /\
+  (forall n es, o = OEntries n \/ o = OToModel n -> snd (step NH true false s o) = OutEntries es ->
      exists x, nth_error s n = Some x /\ FreshKids s' (kids x) es).
 Proof.
   intros h o GH GO s s'. pose proof (reachable_inv h [] InvA_init GH) as IA. fold s in IA.
@@ -218,20 +217,20 @@ Proof.
       unfold s'. simpl. unfold force_hash. rewrite E2. simpl. eauto.
   - intros n es [-> | ->] Hout; unfold s'; simpl in *.
     + destruct (lt_dec n (length s)) as [L|L].
-      * destruct (entries_ok NH NH_truthy rank n s (proj1 I) Rk L) as [(e & E & _)|(s2 & es2 & x & E & _ & _ & Ex & FK)];
+      * destruct (entries_ok NH rank n s (proj1 I) Rk L) as [(e & E & _)|(s2 & es2 & x & E & _ & _ & Ex & FK)];
           rewrite E in *; simpl in *; [discriminate|]. inversion Hout; subst. eauto.
       * unfold entries, get in *. destruct (nth_error s n) eqn:E; [exfalso; apply L; eapply nth_lt; eauto|]. simpl in *. discriminate.
     + destruct (lt_dec n (length s)) as [L|L].
-      * destruct (to_model_ok NH NH_truthy rank n s (proj1 I) Rk L) as [(e & E & _)|(s2 & es2 & x & E & _ & _ & Ex & FK)];
+      * destruct (to_model_ok NH rank n s (proj1 I) Rk L) as [(e & E & _)|(s2 & es2 & x & E & _ & _ & Ex & FK)];
           rewrite E in *; simpl in *; [discriminate|]. inversion Hout; subst. eauto.
       * unfold to_model, get in *. destruct (nth_error s n) eqn:E; [exfalso; apply L; eapply nth_lt; eauto|]. simpl in *. discriminate.
 Qed.
 
 (* every child edge has its back-link, in particular after a delete: the
    removal of one link (by identity) leaves the links to the other parents *)
-Lemma delete_keeps_other_parent : forall h p key, guarded NH true [] h ->
-  guard NH true (final NH true [] h) (ODel p key) ->
-  let s' := fst (step NH true (final NH true [] h) (ODel p key)) in
+Lemma delete_keeps_other_parent : forall h p key, guarded NH true false [] h ->
+  guard NH true false (final NH true false [] h) (ODel p key) ->
+  let s' := fst (step NH true false (final NH true false [] h) (ODel p key)) in
   forall q x name c y, nth_error s' q = Some x -> In (name, c) (kids x) -> nth_error s' c = Some y ->
     In q (parents y).
 Proof.
@@ -248,33 +247,33 @@ Definition I5 (s : heap) (rep : list report) : Prop :=
 Definition InvC (s : heap) (rep : list report) : Prop := InvA s /\ I5 s rep.
 
 Definition gstep (s : heap) (rep : list report) (o : op) : heap * list report :=
-  (fst (step NH true s o), rep ++ reports rp (fst (step NH true s o)) (snd (step NH true s o))).
+  (fst (step NH true false s o), rep ++ reports rp (fst (step NH true false s o)) (snd (step NH true false s o))).
 
-Lemma grun_cons : forall s rep o h, grun NH true rp s rep (o :: h) =
-  grun NH true rp (fst (gstep s rep o)) (snd (gstep s rep o)) h.
-Proof. intros. simpl. unfold gstep. destruct (step NH true s o). reflexivity. Qed.
+Lemma grun_cons : forall s rep o h, grun NH true false rp s rep (o :: h) =
+  grun NH true false rp (fst (gstep s rep o)) (snd (gstep s rep o)) h.
+Proof. intros. simpl. unfold gstep. destruct (step NH true false s o). reflexivity. Qed.
 
 Lemma hash_of_K0 : forall s s' n x x', nth_error s n = Some x -> nth_error s' n = Some x' ->
   cached x' = cached x -> hash_of s' n = hash_of s n.
 Proof. intros s s' n x x' E E' C. unfold hash_of. rewrite E, E', C. reflexivity. Qed.
 
 Lemma collect_step : forall s root, InvA s -> root < length s ->
-  exists s' L, step NH true s (OCollect root) = (s', OutNodes L) /\ Inv s' /\ cgrow s s' /\
+  exists s' L, step NH true false s (OCollect root) = (s', OutNodes L) /\ Inv s' /\ cgrow s s' /\
     (forall m, Reach s root m -> collected_at s' m) /\ flipped s s' L.
 Proof.
   intros s root [I [rank Rk]] L.
-  destruct (collect_ok NH NH_truthy rank (S (length s)) root s I Rk L) as (s' & Lc & E & R).
+  destruct (collect_ok NH rank (S (length s)) root s I Rk L) as (s' & Lc & E & R).
   { destruct Rk as [_ B]. specialize (B root). lia. }
   exists s', Lc. unfold step. rewrite E. simpl. auto.
 Qed.
 
-Lemma gstep_inv : forall s rep o, InvC s rep -> guard NH true s o ->
+Lemma gstep_inv : forall s rep o, InvC s rep -> guard NH true false s o ->
   InvC (fst (gstep s rep o)) (snd (gstep s rep o)).
 Proof.
   intros s rep o [IA H5] G. unfold gstep. simpl. split; [apply step_inv; auto|].
   pose proof (step_ok s o IA G) as [I' K].
-  assert (KK : K0 s (fst (step NH true s o)) -> I5 (fst (step NH true s o))
-                (rep ++ reports rp (fst (step NH true s o)) (snd (step NH true s o)))).
+  assert (KK : K0 s (fst (step NH true false s o)) -> I5 (fst (step NH true false s o))
+                (rep ++ reports rp (fst (step NH true false s o)) (snd (step NH true false s o)))).
   { intros K0' n x' E' C'. destruct (K0' n x' E' C') as (x & E & C & Q).
     destruct (H5 n x E C) as (m & Hm). exists m. apply in_or_app. left.
     rewrite (hash_of_K0 s _ n x x' E E' Q). exact Hm. }
@@ -291,8 +290,8 @@ Proof.
     simpl. apply K0_refl.
 Qed.
 
-Lemma grun_inv : forall h s rep, InvC s rep -> guarded NH true s h ->
-  InvC (fst (grun NH true rp s rep h)) (snd (grun NH true rp s rep h)).
+Lemma grun_inv : forall h s rep, InvC s rep -> guarded NH true false s h ->
+  InvC (fst (grun NH true false rp s rep h)) (snd (grun NH true false rp s rep h)).
 Proof.
   induction h as [|o h IH]; intros s rep IC G; [exact IC|].
   rewrite grun_cons. simpl in G. destruct G as [G1 G2]. apply IH.
@@ -304,14 +303,14 @@ Lemma InvC_init : InvC [] [].
 Proof. split; [apply InvA_init|]. intros n x E. destruct n; discriminate. Qed.
 
 Definition greach (s : heap) (rep : list report) : Prop :=
-  exists h, guarded NH true [] h /\ grun NH true rp [] [] h = (s, rep).
+  exists h, guarded NH true false [] h /\ grun NH true false rp [] [] h = (s, rep).
 
 Lemma greach_inv : forall s rep, greach s rep -> InvC s rep.
 Proof.
   intros s rep (h & G & E). pose proof (grun_inv h [] [] InvC_init G) as H. rewrite E in H. exact H.
 Qed.
 
-Lemma collect_complete : forall s rep root, greach s rep -> guard NH true s (OCollect root) ->
+Lemma collect_complete : forall s rep root, greach s rep -> guard NH true false s (OCollect root) ->
   let s' := fst (gstep s rep (OCollect root)) in
   let rep' := snd (gstep s rep (OCollect root)) in
   forall n, Reach s' root n -> exists hv m, Fresh s' n hv /\ In (m, hv, n) rep'.
@@ -334,16 +333,16 @@ Proof.
   exists hv, m. split; auto. unfold hash_of in Hm. rewrite Ex', Chv in Hm. exact Hm.
 Qed.
 
-Lemma collect_idempotent : forall s rep root, greach s rep -> guard NH true s (OCollect root) ->
+Lemma collect_idempotent : forall s rep root, greach s rep -> guard NH true false s (OCollect root) ->
   root < length s ->
-  let s' := fst (step NH true s (OCollect root)) in
-  step NH true s' (OCollect root) = (s', OutNodes []).
+  let s' := fst (step NH true false s (OCollect root)) in
+  step NH true false s' (OCollect root) = (s', OutNodes []).
 Proof.
   intros s rep root GR G L s'. pose proof (greach_inv s rep GR) as [IA _].
   destruct (collect_step s root IA L) as (s2 & Lc & E & Is2 & CG & CA & _).
   assert (Es : s' = s2) by (unfold s'; rewrite E; reflexivity). rewrite Es.
   pose proof (cgrow_shape _ _ CG) as Sh. destruct IA as [I [rank Rk]].
-  assert (NOOP : collect NH (S (length s2)) root s2 = Ok (s2, [])).
+  assert (NOOP : collect NH false (S (length s2)) root s2 = Ok (s2, [])).
   { apply (collect_noop NH rank).
     - intros m x nm c. apply (I_wfk NH s2 (proj1 Is2)).
     - eapply shape_ranked; eauto.
@@ -353,10 +352,10 @@ Proof.
   unfold step. rewrite NOOP. reflexivity.
 Qed.
 
-Lemma reset_then_collect : forall s rep root, greach s rep -> guard NH true s (OReset root) ->
+Lemma reset_then_collect : forall s rep root, greach s rep -> guard NH true false s (OReset root) ->
   root < length s ->
-  let s1 := fst (step NH true s (OReset root)) in
-  exists L, snd (step NH true s1 (OCollect root)) = OutNodes L /\
+  let s1 := fst (step NH true false s (OReset root)) in
+  exists L, snd (step NH true false s1 (OCollect root)) = OutNodes L /\
     forall n, Reach s1 root n -> In n L.
 Proof.
   intros s rep root GR G L s1. pose proof (greach_inv s rep GR) as [IA _].
